@@ -594,9 +594,9 @@ func c01fanout(c *an.Ctx) {
 				}
 				return true
 			}
-			if call := an.CallResultOf(v, newMsg); call != nil {
-				// the per-channel copy: NewMessage(msg.ID, msg.Body)
-				return fieldOfTracked(call.Call.Args[0], "ID", st) && fieldOfTracked(call.Call.Args[1], "Body", st)
+			if mc := msgCopyOf(v, newMsg); mc != nil {
+				// the per-channel copy: NewMessage(msg.ID, msg.Body), directly or through a helper
+				return st.Has(mc.Src)
 			}
 			return false
 		}
